@@ -33,7 +33,7 @@ PROPERTY = "C01"
 LEVEL = "exploration"
 IMPORTS_IOFLO = False          # the check itself never imports ioflo in-process
 RULE = ("solo: every module found under <repo>/ioflo (exhaustive) + `import ioflo`, each in a clean "
-        "subprocess, normally started and started with -S (no site / .pth preloads); orders: Hypothesis-drawn permutations of subsets of 2-12 modules and of all modules, imported "
+        "subprocess, normally started, started with -S (no site / .pth preloads) and started with -OO (asserts and docstrings stripped); orders: Hypothesis-drawn permutations of subsets of 2-12 modules and of all modules, imported "
         "one after another in one fresh process, each outcome compared with the module's solo outcome. "
         "non-trivial solo = module that is not a package __init__ and imports another ioflo module; "
         "non-trivial order = modules from >= 2 different subpackages; distinct = module / module sequence")
@@ -125,7 +125,7 @@ def solo(module, cwd, bare=False):
     """-> (outcome 'ok' | exception type, detail dict).  bare: interpreter started with -S (no site module, so
     none of the start-up hooks of the environment - .pth files, sitecustomize - has imported anything first)"""
     code = "import sys; sys.path.insert(0, %r); import %s" % (env.REPO, module)
-    rc, out, err = _run(code, cwd, ("-S",) if bare else ())
+    rc, out, err = _run(code, cwd, ("-OO",) if bare == "OO" else (("-S",) if bare else ()))
     if rc == 0 and "Traceback (most recent call last)" not in err:
         return "ok", {}
     if rc == -999:
@@ -162,7 +162,7 @@ def solo_failures(module, rel, outcome, det):
     return [(sig, what)]
 
 
-def bare_failures(module, rel, outcome, det, bare_outcome, bare_det):
+def bare_failures(module, rel, outcome, det, bare_outcome, bare_det, flag=True):
     """The import outcome must not depend on what the interpreter start-up happened to import: with -S the
     outcome is the same, unless a third-party (non ioflo) module is simply not on the bare path."""
     if bare_outcome == outcome:
@@ -172,9 +172,11 @@ def bare_failures(module, rel, outcome, det, bare_outcome, bare_det):
     if bare_outcome in ("ModuleNotFoundError", "ImportError") and m and m.group(1).split(".")[0] != "ioflo":
         return []
     inner = bare_det.get("inner")
-    sig = "import-bare:%s:%s" % (module, bare_outcome) if (not inner or inner == rel) else "import-bare:%s@%s" % (bare_outcome, inner)
-    what = ("`import %s` alone gives %s in a normally started interpreter but %s in one started with -S (nothing preloaded "
-            "by site / .pth hooks): %s [innermost ioflo file: %s]" % (module, outcome, bare_outcome, last, inner or "?"))
+    tag = "import-OO" if flag == "OO" else "import-bare"
+    sig = "%s:%s:%s" % (tag, module, bare_outcome) if (not inner or inner == rel) else "%s:%s@%s" % (tag, bare_outcome, inner)
+    how = ("-OO (asserts and docstrings stripped)" if flag == "OO" else "-S (nothing preloaded by site / .pth hooks)")
+    what = ("`import %s` alone gives %s in a normally started interpreter but %s in one started with %s: %s "
+            "[innermost ioflo file: %s]" % (module, outcome, bare_outcome, how, last, inner or "?"))
     return [(sig, what)]
 
 
@@ -197,6 +199,13 @@ def work(shard, seed, tier):
             with ThreadPoolExecutor(max_workers=3) as ex:
                 results = list(ex.map(lambda m: solo(m[0], cwd), todo))
                 bares = list(ex.map(lambda m: solo(m[0], cwd, bare=True), todo))
+                opts = list(ex.map(lambda m: solo(m[0], cwd, bare="OO"), todo))
+            for (module, rel, is_init), (outcome, det), (ooutcome, odet) in zip(todo, results, opts):
+                # the same import in an interpreter started with -OO (no asserts, no docstrings)
+                acc.case(key=("solo-OO", module), nontrivial=nontrivial_module(rel, is_init),
+                         classes=["solo-OO", "solo-OO:" + ("ok" if ooutcome == "ok" else ooutcome)], sample=None)
+                for sig, what in bare_failures(module, rel, outcome, det, ooutcome, odet, flag="OO"):
+                    acc.fail(sig, what, {"solo": module, "bare": "OO"})
             for (module, rel, is_init), (outcome, det), (boutcome, bdet) in zip(todo, results, bares):
                 acc.case(key=("solo-bare", module), nontrivial=nontrivial_module(rel, is_init),
                          classes=["solo-bare", "solo-bare:" + ("ok" if boutcome == "ok" else boutcome)], sample=None)
@@ -274,8 +283,8 @@ def replay(case):
             outcome, det = solo(module, cwd)
             rel = info.get(module, ("", False))[0]
             if case.get("bare"):
-                boutcome, bdet = solo(module, cwd, bare=True)
-                return bare_failures(module, rel, outcome, det, boutcome, bdet)
+                boutcome, bdet = solo(module, cwd, bare=case["bare"])
+                return bare_failures(module, rel, outcome, det, boutcome, bdet, flag=case["bare"])
             return solo_failures(module, rel, outcome, det)
         return check_order(list(case["order"]), cwd, lambda m: solo(m, cwd))
     finally:
